@@ -167,6 +167,10 @@ pub struct World {
     pub key: String,
     /// (pid, first_seq) of transactions acknowledged in this life of the database, with the data file end offset unknown
     pub acked: Vec<usize>,
+    /// transaction id to use for the NEXT append (so its stored size can be computed beforehand)
+    pub force_txid: std::cell::Cell<Option<Uuid>>,
+    /// events of rejected / failed transactions (id, label index, partition): never to be returned
+    pub failed: Vec<(Uuid, usize, u16)>,
 }
 
 fn ev_label(idx: usize) -> String { format!("e{idx}") }
@@ -183,7 +187,7 @@ impl World {
         for h in [0u16, 1, 2, 9, 10, 3] { pkeys.push(uuid_v7_with_partition_hash(h)); }
         let _ = ctx;
         let key = format!("store nb={} seg={} c={} seed-tag={tag}", cfg.nb, cfg.segsize, cfg.compression as u8);
-        World { cfg, dir, db: None, spec: Spec::default(), pkeys, next_event_idx: 0, hist: vec![], key, acked: vec![] }
+        World { cfg, dir, db: None, spec: Spec::default(), pkeys, next_event_idx: 0, hist: vec![], key, acked: vec![], force_txid: Default::default(), failed: vec![] }
     }
     pub fn pid_of(&self, pk: &Uuid) -> u16 { uuid_to_partition_hash(*pk) % NPART }
 
@@ -228,7 +232,9 @@ impl World {
     pub fn to_transaction(&self, tx: &GenTx) -> Transaction {
         let evs: SmallVec<[NewEvent; 4]> = tx.events.iter().map(|e| NewEvent { event_id: e.id, stream_id: StreamId::new(e.stream.clone()).unwrap(),
             stream_version: e.exp, event_name: e.name.clone(), timestamp: e.ts, metadata: e.meta.clone(), payload: e.payload.clone() }).collect();
-        Transaction::new(tx.pkey, tx.pid, evs).unwrap().expected_partition_sequence(tx.exp_seq)
+        let t = Transaction::new(tx.pkey, tx.pid, evs).unwrap().expected_partition_sequence(tx.exp_seq);
+        // keep the single-event flag Transaction::new chose; only the id bits change
+        match self.force_txid.take() { Some(id) => { let flag = sierradb::id::get_uuid_flag(&t.transaction_id()); t.with_transaction_id(sierradb::id::set_uuid_flag(id, flag)) } None => t }
     }
 
     pub fn op_of_tx(&self, tx: &GenTx, txid: Uuid) -> String {
